@@ -20,9 +20,31 @@ HISTORY = {
     "C16-c": "round 3 (blind): caught on the first run (same class as C16-b, after the routing programs had been broadened).",
     "C06-c": "round 3 (blind): caught on the first run.",
     "C13-c": "round 3 (blind): caught on the first run by the native validation at extreme weight scales (same class as C13-b).",
+    "C15-d": "round 4 (blind): MISSED (exit 0): wrong-length initial guesses were only tried after independent_variable(). Strengthened: x / initial-guess calls (right and wrong length) are inserted directly after functions in the systematic enumeration.",
+    "C01-d": "round 4 (blind): MISSED (exit 0) -- and it exposed a flaw of the specification side: the closed-form oracle took its set of retained singular values from the shadow values, i.e. it inherited the code's rank decision on that path. Corrected: every rank case (all 2^k keep-sets) is emitted with its premise sigma_j > eps / <= eps as an explicit assumption of the obligation; cases contradicting the path condition are vacuous, all others must be proved (also for normal equations, Kaufman form, orthogonality under the full-rank premise).",
+    "C14-d": "round 4: summary read before the run. First evaluation: five Kani harnesses reported failures -- but four of them were SPURIOUS for this tree (f64 harnesses, where the property holds): the change rewrites the loop as `.map`, and CBMC then reports memory-model failures (`dereference failure: pointer NULL/invalid`, `Kani does not support reasoning about pointer to unallocated memory`) inside nalgebra. That was a false-alarm mechanism of the checks: runs containing such failures are now UNDETERMINED as a whole (never a violation). The defect itself (level formed in f32) is now caught by the native f32 band check with probabilities close to 1 (0.99999, 0.999999).",
+    "C12-d": "round 4: the change alters the signature of the crate-private try_calculate, which the overlay access module calls: as built before, the harness would not have compiled (exit 2). Strengthened before the run: that accessor is optional too, and the native scenario statsfit checks the C12 identities and the N > M+P rule through the public API on rank-deficient (truncated) problems.",
+    "C11-d2": "round 4 (blind): reported only by Engine M's MIR comparison of the two impls; Engine R had no configuration with >= 8 right-hand sides. Strengthened: relpar configuration with 9 right-hand sides on a 4-thread pool; R reports it as well (schedule-dependent, observed).",
+    "C11-d": "round 4 (blind): caught on the first run (R: C03 obligations of the parallel flavour; M: MIR comparison).",
+    "C03-d": "round 4 (blind): caught on the first run.", "C06-d": "round 4 (blind): caught on the first run (truncated paths of the relational scenario).",
+    "C02-d": "round 4 (blind): caught on the first run.", "C16-d": "round 4 (blind): caught on the first run.", "C13-d": "round 4 (blind): caught on the first run.",
+    "C03-d2": "round 4: run after the rank-case premises had been made explicit (C01-d); caught.",
     "C04-a": "first evaluation design: Engine M alone reported it but its native replay scenario did not cover LostPatience; the native scenario fitmap now enumerates all 13 termination reasons.",
 }
+AFTER = {"C01-d": "/tmp/seb_C01-d_after.txt", "C15-d": "/tmp/seb_C15-d_after.txt", "C14-d": "/tmp/seb_C14-d_after.txt"}
 SUMMARY = {
+    "C15-d": ("initial_parameters() skips its length check when called directly after function()/partial_deriv()", "a wrong-length initial guess supplied right after a function"),
+    "C02-d": ("residuals cached as Y_w - U(U^T Y_w) (third independent occurrence of this idea)", "a truncated singular value"),
+    "C16-d": ("'skip the temporary Vec' fast path passing params[first..=last] (third independent occurrence)", "arity >= 4, endpoints fixed, middle shuffled"),
+    "C13-d": ("pseudo_inverse(eps) instead of try_inverse (third independent occurrence)", "H small in absolute terms"),
+    "C03-d": ("parallel Jacobian applies the weights after the projection (same mechanism as C11-a)", "parallel flavour and non-uniform weights"),
+    "C06-d": ("truncation threshold scaled by max|w| for weighted problems", "non-unit weights and a singular value between eps and eps*max|w|"),
+    "C01-d": ("truncation threshold made relative: eps * sigma_max", "sigma_max != 1 and a singular value between eps and eps*sigma_max"),
+    "C14-d": ("quantile level (1+p)/2 computed in the model's scalar type before widening to f64", "f32 models with p close to 1"),
+    "C11-d": ("parallel Jacobian projects with only the leading rank(eps*sigma_max) columns of U", "parallel flavour, user epsilon, nearly collinear basis functions"),
+    "C12-d": ("degrees of freedom use the numerical rank instead of M (try_calculate gets an extra argument)", "a singular value at or below the SVD epsilon at the final parameters"),
+    "C11-d2": ("parallel set_params solves >= 8 right-hand sides column-wise through par_bridge (order not preserved)", ">= 8 right-hand sides and >= 2 worker threads"),
+    "C03-d2": ("Jacobian projector keeps only columns of U with sigma > eps*sigma_max", "user epsilon with eps < sigma_min <= eps*sigma_max"),
     "C01-a": ("try_svd(.., eps = user threshold, max_niter) instead of svd(): the truncation threshold becomes the SVD's convergence tolerance", "a user epsilon well above machine epsilon"),
     "C01-b": ("hand-rolled truncated solve without the `else row = 0`: discarded singular directions pass u^T y through", "a singular value at or below the threshold (rank-deficient / large user epsilon)"),
     "C02-a": ("MRHS best_fit computed as Y_w - residuals (weighted) instead of Phi*C", "multiple right-hand sides and non-unit weights"),
@@ -103,6 +125,12 @@ for name in sorted(os.listdir(os.path.join(HERE, "seeded"))):
         })
     if name in SUMMARY:
         meta["what_it_does"], meta["needs_to_manifest"] = SUMMARY[name]
+    if name in AFTER and os.path.exists(AFTER[name]):
+        t = open(AFTER[name]).read()
+        meta["detected_on_first_run"] = meta.get("detected")
+        v = re.findall(r"^VIOLATION property=(\S+) replay=(\S+)\n  detail: (.*)$", t, re.M)
+        meta["detected_after_strengthening"] = bool(v)
+        meta["violations_after_strengthening"] = [{"detail": x[2][:300]} for x in v[:4]]
     if name in HISTORY:
         meta["history"] = HISTORY[name]
     notes = os.path.join(d, "notes.md")
